@@ -1,17 +1,19 @@
+import os
 #!/usr/bin/env python3
 """Validate MANIFEST.json and evidence files against the task schemas (uses the tooling venv: python3-vt)."""
 import glob, json, sys
 import jsonschema
-m = json.load(open('/verif/MANIFEST.json'))
+HERE = os.path.dirname(os.path.abspath(__file__))
+m = json.load(open(HERE + '/MANIFEST.json'))
 jsonschema.validate(m, json.load(open('/root/.vp/MANIFEST.schema.json')))
 es = json.load(open('/root/.vp/EVIDENCE.schema.json'))
-props = [json.loads(l)['id'] for l in open('/verif/properties.jsonl') if l.strip()]
+props = [json.loads(l)['id'] for l in open(HERE + '/properties.jsonl') if l.strip()]
 claimed = [c['property_id'] for c in m['checks']]
 na = [n['property_id'] for n in m.get('not_applicable', [])]
 missing = [p for p in props if p not in claimed and p not in na]
 both = [p for p in props if p in claimed and p in na]
 print('claimed', len(claimed), 'not_applicable', len(na), 'unlisted', missing, 'both', both)
-for f in sorted(glob.glob('/verif/evidence/*.json')):
+for f in sorted(glob.glob(HERE + '/evidence/*.json')):
     e = json.load(open(f))
     jsonschema.validate(e, es)
     print(f, 'ok', e['tier'], e['coverage'].get('evaluations'), e['coverage'].get('distinct_nontrivial'), e['wall_s'], 'violations', e.get('violations'))
